@@ -335,14 +335,14 @@ impl<C: PixelColor> embedded_graphics::draw_target::DrawTarget for SkipT<C> {
             return Ok(());
         }
         let w = area.size.width as usize;
-        if self.mode != 0 {
+        // (by-value consumption only for streams that announce a finite length: the default `fill_solid` hands an
+        // infinite `repeat(color)` over, and a wrapper such as `take` would hide the stream's own `fold` / `for_each`)
+        let finite = it.size_hint().1.map_or(false, |u| u <= 1 << 26);
+        if self.mode != 0 && finite {
             let first = (vis.top_left.y - area.top_left.y) as usize * w + (vis.top_left.x - area.top_left.x) as usize;
             if first > 0 && it.nth(first - 1).is_none() {
                 return Ok(());
             }
-            // (never more than one colour beyond the area: the default `fill_solid` hands an infinite stream over)
-            let limit = (w * area.size.height as usize).saturating_sub(first) + 1;
-            let mut it = it.take(limit);
             let (window, ax, ay) = (self.window, area.top_left.x, area.top_left.y);
             let map = &mut self.map;
             let mut put = |idx: usize, c: C| {
